@@ -66,14 +66,25 @@ def main():
                 raise
             return ("__err__", type(e).__name__)
 
+    VALS = [None]   # "real numbers" mode: cells are the doubles / float32s / ints of case["vals"], reported exactly
+
+    def cellenc(x):
+        """a cell as the harness compares it: the integer cell id, or (vals mode) the exact rational of the number held"""
+        if VALS[0] is not None:
+            n, d = float(x).as_integer_ratio()
+            return [n, d]
+        return int(x) - OFF[0]
+
     def is_cell(r):
+        if VALS[0] is not None:      # a numpy scalar (a plain Python float is get()'s default, never a cell)
+            return isinstance(r, (np.floating, np.integer)) and not isinstance(r, (bool, np.bool_))
         if OFF[0]:
             return isinstance(r, (float, np.floating)) and float(r) >= 1.0 and float(r) == int(r)
         return isinstance(r, (int, np.integer)) and not isinstance(r, bool)
 
     def scalar_obs(r):
         if r is SENT: return ["default"]
-        if is_cell(r): return ["scalar", int(r) - OFF[0]]
+        if is_cell(r): return ["scalar", cellenc(r)]
         if isinstance(r, float): return ["default-float", r]
         return ["other", repr(r)[:80]]
 
@@ -95,7 +106,7 @@ def main():
                         p = catching(lambda: r.prob(e))
                         if isinstance(p, tuple) and len(p) == 2 and p[0] == "__err__":
                             probs.append(["err", p[1]])
-                        elif isinstance(p, float) and p == 0.0:
+                        elif type(p) is float and p == 0.0:      # DictDistribution.prob's default (a cell is a numpy scalar)
                             probs.append(["default"])
                         else:
                             probs.append(scalar_obs(p))
@@ -106,12 +117,13 @@ def main():
                     extra["len"] = catching(lambda: len(r))
             return ["table", type(r).__name__, [enc(n) for n in ti.field_names],
                     [[enc(e) for e in d] for d in ti.field_domains],
-                    [int(x) - OFF[0] for x in np.asarray(r._data).ravel().tolist()], probs, extra,
+                    [cellenc(x) for x in np.asarray(r._data).ravel()], probs, extra,
                     {"data_shape": list(np.asarray(r._data).shape), "dom_types": [type(d).__name__ for d in ti.field_domains]}]
         if is_cell(r):
-            return ["scalar", int(r) - OFF[0]]
+            return ["scalar", cellenc(r)]
         return ["other", repr(r)[:80]]
 
+    INPUTS = {}    # the caller's objects handed to the constructor of the table under test (snapshot / mutation check)
     OFF = [0]      # float-data mode stores cell+1 as float64; observations report the integer cell
 
     def build(case, bump=0, reuse_from=None):
@@ -123,7 +135,14 @@ def main():
         names = [dec(n) for n in case["names"]]
         shape = tuple(len(d) for d in doms)
         flat = [x + bump for x in case["data"]]
-        if rep.get("dtype") == "float":
+        if "vals" in case:
+            nums = [float.fromhex(v) if isinstance(v, str) else v for v in case["vals"]]
+            nums = nums + [999.0] * 1000                      # id 999 = from_dict's default_value
+            dt = {"prob64": np.float64, "prob32": np.float32, "probint": np.int64}[rep["dtype"]]
+            data = np.array([nums[k] for k in case["data"]], dtype=dt).reshape(shape)
+            if bump:
+                data = (data * 0.5 + 0.25).astype(dt)       # the twin: same labels, other numbers
+        elif rep.get("dtype") == "float":
             data = (np.array(flat, dtype=float) + 1.0).reshape(shape)
         else:
             data = np.array(flat, dtype=int).reshape(shape)
@@ -132,6 +151,13 @@ def main():
         else:
             conv = {"list": list, "tuple": tuple, "domaintuple": domaintuple}[rep.get("doms_as", "list")]
             doms = [conv(d) for d in doms]
+            if rep.get("share_doms"):       # ONE object for every field whose domain is the same sequence
+                for i in range(len(doms)):
+                    for j in range(i):
+                        if case["doms"][i] == case["doms"][j]:
+                            doms[i] = doms[j]
+        if not bump:
+            INPUTS.update(doms=doms, data=data, data_copy=np.array(data, copy=True))
         ctor = rep.get("ctor", "default")
         name = case["cls"]
         if ctor == "from_dict":
@@ -142,6 +168,8 @@ def main():
             return cls.from_dict(d, default_value=(999 + (1 if rep.get("dtype") == "float" else 0)))
         if ctor == "listdata":
             data = data.tolist()
+            if not bump:
+                INPUTS["data"] = data
         if name == "StateTable":
             return cls.from_state_list(doms[0], data)
         if name == "StateNextStateTable":
@@ -158,6 +186,7 @@ def main():
     def one(case, pl):
         rep = case.get("rep", {})
         OFF[0] = 1 if rep.get("dtype") == "float" else 0
+        VALS[0] = case["vals"] if "vals" in case else None
         if rep.get("reuse"):
             # a twin table over the same labels with other numbers is built and USED first (caches on the
             # domaintuple / TableIndex objects are filled), then the real table is derived from its objects
@@ -170,7 +199,7 @@ def main():
             t = build(case)
         res = {"names": [enc(n) for n in t.table_index.field_names],
                "doms": [[enc(e) for e in d] for d in t.table_index.field_domains],
-               "data": [int(x) - OFF[0] for x in np.asarray(t._data).ravel().tolist()],
+               "data": [cellenc(x) for x in np.asarray(t._data).ravel()],
                "shape": list(t.shape), "ndim": int(t.ndim),
                "keys": [enc(k) for k in t.keys()], "iter": [enc(k) for k in t], "len": len(t)}
         its = catching(lambda: list(t.items()))
@@ -183,9 +212,11 @@ def main():
         vals = catching(lambda: list(t.values()))
         res["values"] = [["err", vals[1]]] if (isinstance(vals, tuple) and vals and vals[0] == "__err__") else [obs(v, t) for v in vals]
         chains = []
+        kept = []           # (selector objects, first result object, its first observation) for the stale re-query
         for ch in case["chains"]:
             sels = [dec(s) for s in ch]
             steps, cur = [], t
+            first = None
             for k, s in enumerate(sels):
                 r = catching(lambda: cur[s])
                 o = obs(r, cur)
@@ -195,6 +226,8 @@ def main():
                 if o[0] == "self":
                     continue
                 if o[0] == "table":
+                    if k == 0:
+                        first = r
                     cur = r
                     continue
                 if k < len(sels) - 1:
@@ -209,6 +242,32 @@ def main():
                 if hasattr(t, "action_dist"):
                     out["action_dist"] = obs(catching(lambda: t.action_dist(sels[0])), t)
             chains.append(out)
+            kept.append((sels, first, steps))
+        # a second, different table (other size, other label order) is built and indexed with the SAME selector
+        # objects; then the results of the first calls are queried again
+        d2 = [list(reversed(INPUTS["doms"][0])) + ["__other__"]] + [list(d) for d in INPUTS["doms"][1:]][:1]
+        t2 = Table(np.arange(int(np.prod([len(d) for d in d2])))[::-1].reshape([len(d) for d in d2]).copy(),
+                   TableIndex(field_names=["p", "q"][:len(d2)], field_domains=d2))
+        for sels, first, steps in kept:
+            catching(lambda: t2[sels[0]])
+        for (sels, first, steps), out in zip(kept, chains):
+            if first is not None:
+                ok = obs(first, t) == steps[0]
+                if len(sels) > 1 and len(steps) > 1:
+                    ok = ok and obs(catching(lambda: first[sels[1]]), first) == steps[1]
+                out["stale_ok"] = ok
+        # did any call change an object of the caller?
+        mutated = []
+        if [[enc(e) for e in d] for d in INPUTS["doms"]] != case["doms"]:
+            mutated.append("domains")
+        din = np.asarray(INPUTS["data"])
+        if din.shape != INPUTS["data_copy"].shape or not np.array_equal(din, INPUTS["data_copy"]):
+            mutated.append("data")
+        for (sels, first, steps), ch in zip(kept, case["chains"]):
+            if [enc(x) for x in sels] != ch:
+                mutated.append("selector")
+                break
+        res["mutated"] = mutated
         res["chains"] = chains
         # construction-time validation (Table._validate_table)
         if "ctor_dup" in case:
